@@ -58,6 +58,8 @@ def binop(op, ty, l, r):
         return l[3] if c == 0 else ('bin', 'add', ty, l[3], num(c, ty))
     if ty in INTBITS and op == 'add' and r == num(0, ty):
         return l
+    if op in ('add', 'mul') and l[0] != 'num' and r[0] != 'num' and repr(r) < repr(l):
+        l, r = r, l                                         # + and * commute, in IEEE arithmetic too
     return ('bin', op, ty, l, r)
 
 
@@ -484,6 +486,8 @@ def r_compound(P, rep, rule, tier='quick'):
     for op in ('ND_SUB', 'ND_MUL', 'ND_DIV'):
         for atomic in (False, True):
             cases.append((op, 'float', 'double', 'ND_VAR', atomic))
+        for lkind in ('ND_DEREF', 'ND_MEMBER'):
+            cases.append((op, 'double', 'int', lkind, False))
     for op, a, b, lkind, atomic in cases:
         mode = 'atomic' if atomic else 'plain'
         key = 'parse.c:to_assign:%s/%s/(%s,%s)/%s' % (op, lkind, a, b, mode)
@@ -601,60 +605,39 @@ CTYPE = {'float': 'float', 'double': 'double', 'ldouble': 'long double'}
 TYCODE = {1: 'float', 2: 'double', 3: 'long double', 4: 'int', 5: 'unsigned int', 6: 'long', 7: 'unsigned long', 0: 'another type'}
 
 
-def compiler_formats(P):
-    """{'float': (p, emin, emax), ...}: from the object size type.c gives the type and the load instruction codegen.c selects for it
-    (movss / movsd / fldt). None for a type whose pair is not one of the three x86-64 psABI formats."""
-    T = Types(P)
-    it = T.interp()
+def compiler_formats(P, cg=None):
+    """{'float': ((p, emin, emax) | None, size, class), ...}: from the object size type.c gives the type and the instruction load() of codegen.c
+    emits for it on every path (Engine I: movss / movsd / fldt). None for a pair that is not one of the three x86-64 psABI formats."""
+    from .chibi import CG, Trace
     from .interp import Ctx
-    it.ctx = Ctx([])
-    cu = P.unit('codegen.c')
-    ld = cu.fn('load')
-    if ld is None:
+    T = Types(P)
+    itt = T.interp()
+    itt.ctx = Ctx([])
+    cg = cg or CG(P)
+    if cg.cu.fn('load') is None:
         raise AnalysisBroken('codegen.c: load vanished')
-    # the template each floating kind loads with: string literals under the case label / if arm that names the kind
-    E = cu.enums
-    tpl = {}
-    for kname in ('TY_FLOAT', 'TY_DOUBLE', 'TY_LDOUBLE'):
-        strs = []
-        for cs in ld.find('CaseStmt'):
-            lab = cs.inner[0]
-            if lab.int_value() == E.get(kname) or any(r.ref_name == kname for r in lab.walk() if r.kind == 'DeclRefExpr'):
-                # statements of this label: the case's sub-statement and the following siblings up to the next label / return
-                par = cs.parent
-                sibs = par.inner if par is not None else []
-                take = [cs.inner[-1]]
-                i = sibs.index(cs) if cs in sibs else -1
-                for s in sibs[i + 1:] if i >= 0 else []:
-                    if s.kind in ('CaseStmt', 'DefaultStmt'):
-                        break
-                    take.append(s)
-                    if s.kind in ('ReturnStmt', 'BreakStmt'):
-                        break
-                for s in take:
-                    for lit in s.walk():
-                        if lit.kind == 'StringLiteral':
-                            strs.append(lit.str_value() or '')
-        tpl[kname] = strs
     out = {}
-    for tname, kname in (('float', 'TY_FLOAT'), ('double', 'TY_DOUBLE'), ('ldouble', 'TY_LDOUBLE')):
-        g = T.glob(it, 'ty_' + tname)
+    for tname in ('float', 'double', 'ldouble'):
+        g = T.glob(itt, 'ty_' + tname)
         size = g.fields.get('size')
-        cls = None
-        for s in tpl[kname]:
-            m = s.strip().split()
-            if not m:
+        it = cg.interp()
+        classes = set()
+        try:
+            res = it.explore('load', lambda ctx, tname=tname: [cg.tcell('ty', only=(tname,))], max_paths=200)
+        except AnalysisBroken:
+            res = []
+        for ctx, o in res:
+            if o[0] != 'ret':
                 continue
-            if m[0] == 'movss':
-                cls = 'ss'
-            elif m[0] == 'movsd':
-                cls = 'sd'
-            elif m[0] == 'fldt':
-                cls = 'x87'
+            mn = [l.split('#')[0].split() for l in Trace(ctx).asm()]
+            mn = [m[0] for m in mn if m]
+            classes.add({('movss',): 'ss', ('movsd',): 'sd', ('fldt',): 'x87'}.get(tuple(mn), 'other:' + ' '.join(mn)))
+        cls = classes.pop() if len(classes) == 1 else None
         out[tname] = (FORMATS.get((size, cls)), size, cls)
     return out
 
 
+C_KEYWORDS = {'float', 'double', 'long', 'int', 'short', 'char', 'signed', 'unsigned', 'sizeof', '_Bool', 'const', 'volatile'}
 REQUIRED_COMMON = {'FLT_RADIX': 2, 'FLT_ROUNDS': 1, 'FLT_EVAL_METHOD': 0}
 INT_CHARS = ('MANT_DIG', 'DECIMAL_DIG', 'DIG', 'MIN_EXP', 'MIN_10_EXP', 'MAX_EXP', 'MAX_10_EXP', 'HAS_SUBNORM')
 FP_CHARS = ('MAX', 'MIN', 'EPSILON', 'TRUE_MIN')
@@ -665,10 +648,10 @@ def _clang(args, text):
     return p
 
 
-def r_float_h(P, rep, rule):
+def r_float_h(P, rep, rule, cg=None):
     H = 'include/float.h'
     path = P.header(H)
-    fm = compiler_formats(P)
+    fm = compiler_formats(P, cg)
     for tname, (fmt, size, cls) in fm.items():
         if fmt is None:
             rep.undecided(rule, '%s:%s:format' % (H, PREFIX[tname]), 'type %s has size %r and is loaded with class %r: not one of the psABI formats the oracle knows' % (tname, size, cls), where=H)
@@ -692,8 +675,17 @@ def r_float_h(P, rep, rule):
     def foreign(body):
         """identifiers of a macro body that the header does not define itself (the reader's own predefined macros would be substituted)"""
         b = re.sub(r'\.?\d(?:[eEpP][+-]|[\w.])*', ' ', body)      # pp-numbers (hex floats contain letters)
-        return sorted(set(x for x in re.findall(r'[A-Za-z_]\w*', b) if x not in hdr))
+        return sorted(set(x for x in re.findall(r'[A-Za-z_]\w*', b) if x not in hdr and x not in C_KEYWORDS))
 
+    # names the compiler itself predefines (first arguments of the define_macro / add_builtin calls of preprocess.c)
+    predefined = set()
+    ppu = P.unit('preprocess.c')
+    for fn in ppu.functions.values():
+        for c in fn.find('CallExpr'):
+            if c.callee() in ('define_macro', 'add_builtin') and c.args():
+                a0 = c.args()[0].strip_all()
+                if a0.kind == 'StringLiteral' and a0.str_value():
+                    predefined.add(a0.str_value())
     want = {}                # macro -> (kind, value, ctype)
     for n, v in REQUIRED_COMMON.items():
         want[n] = ('int', v, None)
@@ -726,19 +718,17 @@ def r_float_h(P, rep, rule):
         lines.append('enum { c02_ty_%s = _Generic((%s), float: 1, double: 2, long double: 3, int: 4, unsigned: 5, long: 6, unsigned long: 7, default: 0) };' % (n, n))
         if kind == 'int':
             lines.append('enum { c02_eq_%s = ((%s) == (%d)) };' % (n, n, val))
-            if n != 'FLT_ROUNDS':
-                lines.append('#if (%s) == (%d)\nenum { c02_pp_%s = 1 };\n#else\nenum { c02_pp_%s = 0 };\n#endif' % (n, val, n, n))
         else:
             lines.append('enum { c02_eq_%s = ((long double)(%s) == %s) };' % (n, n, _hexlit(val, 'L')))
             lines.append('enum { c02_gt_%s = ((long double)(%s) > %s) };' % (n, n, _hexlit(val, 'L')))
     vals = {}
-    if probes:
-        p = _clang(['-fsyntax-only', '-Xclang', '-ast-dump=json'], '\n'.join(lines) + '\n')
+
+    def enums_of(text):
+        p = _clang(['-fsyntax-only', '-Xclang', '-ast-dump=json'], text)
         if p.returncode != 0:
-            rep.undecided(rule, '%s:probe' % H, 'clang rejects the probe of the header\'s macros: %s' % p.stderr.strip().splitlines()[:3], where=H)
-            return
-        top = json.loads(p.stdout)
-        for d in top.get('inner', []):
+            return None, p.stderr.strip().splitlines()[:3]
+        out = {}
+        for d in json.loads(p.stdout).get('inner', []):
             if d.get('kind') == 'EnumDecl':
                 for c in d.get('inner', []):
                     if c.get('kind') == 'EnumConstantDecl' and c.get('name', '').startswith('c02_'):
@@ -746,7 +736,25 @@ def r_float_h(P, rep, rule):
                         for x in c.get('inner', []):
                             if 'value' in x:
                                 v = int(x['value'])
-                        vals[c['name']] = v
+                        out[c['name']] = v
+        return out, None
+    if probes:
+        got, err = enums_of('\n'.join(lines) + '\n')
+        if got is None:
+            rep.undecided(rule, '%s:probe' % H, 'clang rejects the probe of the header\'s macros: %s' % err, where=H)
+            return
+        vals.update(got)
+        # second pass: the integer characteristics with the right value and type, inside #if (one run; one run per macro if that is rejected)
+        def pp(n):
+            return '#if (%s) == (%d)\nenum { c02_pp_%s = 1 };\n#else\nenum { c02_pp_%s = 0 };\n#endif' % (n, want[n][1], n, n)
+        ints = [n for n in probes if want[n][0] == 'int' and n != 'FLT_ROUNDS' and vals.get('c02_eq_' + n) == 1 and vals.get('c02_ty_' + n) in (4, 5, 6, 7)]
+        got, err = enums_of('\n'.join([lines[0]] + [pp(n) for n in ints]) + '\n')
+        if got is not None:
+            vals.update(got)
+        else:
+            for n in ints:
+                g1, e1 = enums_of(lines[0] + '\n' + pp(n) + '\n')
+                vals['c02_pp_' + n] = g1.get('c02_pp_' + n) if g1 is not None else 0
     # --- obligations: one per macro and aspect while it holds; the failing macros of one family (FLT / DBL / LDBL / common) and aspect form one
     # obligation whose key names them (one defect of the header = one key; another macro going wrong = another key)
     bad = {}
@@ -765,7 +773,11 @@ def r_float_h(P, rep, rule):
             ob(n, 'object-like', False, '%s is a function-like macro' % n); continue
         fo = foreign(hdr[n][1])
         if fo:
-            rep.undecided(rule, '%s:%s' % (H, n), '%s is defined through %s, which the header does not define: its expansion under chibicc is not what the reader sees' % (n, ', '.join(fo)), where=H)
+            unknown = [x for x in fo if x not in predefined]
+            if unknown and predefined:
+                ob(n, 'expands-to-undefined-name', False, '%s is `%s`: %s is neither defined by the header nor predefined by the compiler (init_macros), the expansion does not compile' % (n, hdr[n][1], ', '.join(unknown)))
+            else:
+                rep.undecided(rule, '%s:%s' % (H, n), '%s is defined through %s, which the header does not define: its expansion under chibicc is not what the reader sees' % (n, ', '.join(fo)), where=H)
             continue
         ob(n, 'defined', True, '')
         ty, eq = vals.get('c02_ty_' + n), vals.get('c02_eq_' + n)
@@ -775,7 +787,7 @@ def r_float_h(P, rep, rule):
         if kind == 'int':
             ob(n, 'value', eq == 1, '%s is `%s`, prescribed %d' % (n, body, val))
             ob(n, 'type', ty == 4, '%s (`%s`) has type %s, not int' % (n, body, TYCODE.get(ty, ty)))
-            if n != 'FLT_ROUNDS' and eq == 1:
+            if n != 'FLT_ROUNDS' and eq == 1 and ty in (4, 5, 6, 7):
                 ob(n, 'usable-in-#if', vals.get('c02_pp_' + n) == 1, '%s (`%s`) does not evaluate to %d in #if' % (n, body, val))
         else:
             gt = vals.get('c02_gt_' + n)
